@@ -57,7 +57,7 @@ class Exec(ExprMixin, AccessMixin, CallMixin, StmtMixin, SpecMixin, HeapMixin, O
     term = z3.Const('in_' + name, kind.sort())
     v = self.wrap(st, term, kind)
     if t == 'val' and kind.tags:
-      st.assume(z3.Or(*[vv.recog(tag, term) for tag in kind.tags]))
+      st.assume(z3.Or(*[self.recog(tag, term) for tag in kind.tags]))
       st.tags[term.get_id()] = tuple(kind.tags)
     if t == 'fn' and not kind.nullable:
       st.assume(term != 0)
@@ -136,6 +136,8 @@ class Exec(ExprMixin, AccessMixin, CallMixin, StmtMixin, SpecMixin, HeapMixin, O
 
   def make_result(self, st, kind):
     t = kind.tag
+    if t == 'ptuple':
+      return VTuple([self.make_result(st, k) for k in kind.elem])
     if t in ('ref', 'list', 'dict', 'set', 'tuple', 'exc'):
       term = fresh('res', z3.IntSort())
       if not kind.nullable:
@@ -265,7 +267,7 @@ class Exec(ExprMixin, AccessMixin, CallMixin, StmtMixin, SpecMixin, HeapMixin, O
     if isinstance(v, VRef) and isinstance(v.cls, ClassInfo):
       for (cname, f), kind in self.ctx.registry.fields.items():
         if kind.tag != 'py' and any(c.name == cname for c in v.cls.mro()):
-          self.ctx.observe.append(('%s.%s' % (label, f), z3.Select(st.harr((cname, f), kind.sort(), is_ref=kind.tag in ('ref', 'exc', 'list', 'dict', 'set', 'tuple')), v.t)))
+          self.ctx.observe.append(('%s.%s' % (label, f), z3.Select(st.harr((cname, f), kind.sort(), is_ref=kind.tag in ('ref', 'exc', 'list', 'dict', 'set', 'tuple'), owned=getattr(kind, 'owned', False)), v.t)))
     elif isinstance(v, VRef) and v.cls in ('list', 'tuple'):
       self.ctx.observe.append(('len(%s)' % label, self.list_len(st, v)))
       for i in range(4):
